@@ -99,6 +99,14 @@ func (e *evictorProxy) Evict(ctx context.Context, pod *corev1.Pod, opts framewor
 	if len(e.handle.evictPlugins) == 0 {
 		panic("No Evictor plugin is registered in the frameworkImpl.")
 	}
+	// check, evict and count atomically with respect to other evictors sharing the limiter
+	if l, ok := e.evictionLimiter.(interface {
+		LockEviction()
+		UnlockEviction()
+	}); ok {
+		l.LockEviction()
+		defer l.UnlockEviction()
+	}
 	if !e.AllowEvict(pod) {
 		return false
 	}
